@@ -568,6 +568,28 @@ impl Boudot2000RangeProof {
     where
         H: Digest,
     {
+        // every group element of the proof must be given by its reduced representative: otherwise E + n, F + n, ...
+        // are accepted in place of E, F, ...
+        let reduced = |x: &Integer| *x > 0 && x < n;
+        let pt = &self.proof_of_tolerance;
+        if ![
+            &self.E,
+            &self.E_prime,
+            &pt.E_a_1,
+            &pt.E_a_2,
+            &pt.E_b_1,
+            &pt.E_b_2,
+            &pt.proof_of_square_a.E,
+            &pt.proof_of_square_a.F,
+            &pt.proof_of_square_b.E,
+            &pt.proof_of_square_b.F,
+        ]
+        .into_iter()
+        .all(reduced)
+        {
+            return false;
+        }
+
         if self.E_prime == Integer::from(self.E.pow_mod_ref(&Integer::from(2).pow(T), n).unwrap()) {
             let res_verify_ts = Self::verify_of_tolerance_specific::<H>(
                 &self.proof_of_tolerance,
